@@ -627,6 +627,14 @@ def gen_parallel_scenarios(ck, n):
                     'profiling': False, 'no_denoise': False, 'env': rng.choice(ENVS), 'cset': None,
                     'num_cores': rng.choice([2, 4, 64]), 'cpu_count': rng.choice([5, 8, 10]),
                     'n_bench': n_bench, 'invocations': inv, 'at': rng.randint(1, total)})
+    # an internal exception in one worker thread (an early one: it is joined first) while the other
+    # workers are in the middle of long benchmarks; also a failing benchmark in one worker
+    for i in range(max(6, n // 3)):
+        n_bench = rng.randint(5, 8)
+        out.append({'kind': 'parallel', 'report': rng.choice(reps), 'path': 'crash' if i % 4 != 3 else 'failed',
+                    'profiling': False, 'no_denoise': False, 'env': rng.choice(ENVS), 'cset': None,
+                    'num_cores': rng.choice([2, 4, 64]), 'cpu_count': rng.choice([5, 8, 10]),
+                    'n_bench': n_bench, 'invocations': 2, 'at': rng.choice([1, 1, 1, 2]), 'long': True})
     return out
 
 
@@ -666,8 +674,11 @@ def check_parallel(ck, scenarios):
             with lock:
                 state['k'] += 1
                 k = state['k']
-            o = drive.Outcome(0, 'B: iterations=1 runtime: 5ms\n')
-            o.delay = 0.04 + 0.01 * (k % 3)
+            if sc['path'] == 'crash' and k == sc['at']:
+                raise RuntimeError('internal error injected by the harness (in a worker thread)')
+            o = drive.Outcome(1 if (sc['path'] == 'failed' and k == sc['at']) else 0,
+                              'B: iterations=1 runtime: 5ms\n')
+            o.delay = (0.10 if sc.get('long') else 0.04) + 0.01 * (k % 3)
             if sc['path'] == 'interrupt' and k == sc['at']:
                 def fire():
                     time.sleep(0.015)
